@@ -199,7 +199,8 @@ class TList(Ty):
         return c
 
     def empty(self):
-        return Val(self, self.mk(z3.IntVal(0), z3.Const(fresh_name("nil"), z3.ArraySort(I, self.elem.sort()))))
+        # one canonical empty list per element type (the array content beyond len is junk; sharing it makes [] == [] provable)
+        return Val(self, self.mk(z3.IntVal(0), z3.Const("nil!" + self.elem.name, z3.ArraySort(I, self.elem.sort()))))
 
 
 class TOpt(Ty):
